@@ -282,6 +282,14 @@ class DictV:
         return s
 
 
+class CList:
+    """a Python list of objects (strings / arrays) of which ONLY THE LENGTH is tracked (contract type `list_counted`): elements read from it are opaque
+    values; a subscript load / store is in range or raises IndexError (an obligation), append adds one.  Used for the bookkeeping lists of repair_dna."""
+
+    def __init__(self, n):
+        self.n = n
+
+
 class MaybeFloat:
     """an integer-valued numpy scalar whose dtype is float64 when `when` holds (sum / % over array([]) without a dtype)."""
 
